@@ -496,7 +496,8 @@ def _simple_value(dop: Any, depth: int = 0, variant: int = 0) -> Any:
                 return (c.short_name, _simple_value(c.structure, depth + 1, variant))
         return 1
     if tn == "DtcDop":
-        return dop.dtcs[0].trouble_code if dop.dtcs else 1
+        # the alternative takes the last one: with LINKED-DTC-DOPS that is an inherited DTC
+        return dop.dtcs[-1 if variant else 0].trouble_code if dop.dtcs else 1
     pt = getattr(getattr(dop, "physical_type", None), "base_data_type", None)
     cm = getattr(dop, "compu_method", None)
     if cm is not None and type(cm).__name__ == "TexttableCompuMethod":
@@ -577,6 +578,11 @@ def corpus(db: Any) -> Dict[str, Any]:
         except Exception as e:
             res[f"{ln}/<services>"] = ["raises", type(e).__name__, str(e)[:300]]
             continue
+        try:  # derived while loading, no dataclass field: the DTCs each DTC-DOP ends up with
+            for dd in layer.diag_data_dictionary_spec.dtc_dops:
+                res[f"{ln}/<dtcs>/{dd.short_name}"] = [[d.short_name, d.trouble_code] for d in dd.dtcs]
+        except Exception as e:
+            res[f"{ln}/<dtcs>"] = ["raises", type(e).__name__, str(e)[:300]]
         for svc, variant in [(x, v) for x in services for v in (0, 1)]:
             key = f"{ln}/{svc.short_name}" + ("/alt" if variant else "")
             req = getattr(svc, "request", None)
